@@ -1,11 +1,15 @@
 (* Props/C11.v — property C11: Normalize reorders any contract-abiding stream losslessly into sequential order. *)
-From CV Require Import Model.Base Model.Events Model.Contract Model.Normalize Proofs.BaseP Proofs.NormalizeP Proofs.NormalizeP2.
+From CV Require Import Proofs.SchedP5.
+From CV Require Import Model.Base Model.Events Model.Contract Model.Normalize Proofs.BaseP Proofs.NormalizeP Proofs.NormalizeP2
+  Proofs.NormalizeP3.
+From CV Require Proofs.Compose.
 From Coq Require Import Permutation.
 
 (* LOSSLESS. `accepts_run` is the queue discipline the Runner contract guarantees (every event belongs to an
    entity that is buffered and not yet finished; a bracket closes only when everything inside it is finished;
-   nothing follows an attempt's Finished). That the contract implies it is validated on every generated stream
-   by Check/C11Check.v (sub-check 2), not proved. *)
+   nothing follows an attempt's Finished). That the Runner contract implies it is PROVED below
+   (C11_contract_implies_the_queue_discipline, by a simulation between the contract automaton and the buffered
+   structure) and additionally validated on every generated stream by Check/C11Check.v (sub-check 2). *)
 
 (* the emission loops only ever move a PREFIX of the buffer to the inner writer: nothing is dropped,
    duplicated or reordered inside the buffer *)
@@ -62,3 +66,26 @@ Example C11_nonvacuous :
                       (9, EvFeatF 1); (3, EvFeatS 2); (4, EvScen 2 None 7 None ScStarted); (6, EvScen 2 None 7 None ScFinished);
                       (7, EvFeatF 2); (10, EvFinished)].
 Proof. vm_compute. auto. Qed.
+
+(* THE RUNNER CONTRACT IS ENOUGH. Every stream accepted by the contract automaton (any interleaving the contract
+   allows, any length, retries, rules, pass-through events anywhere) respects Normalize's queue discipline: each
+   event finds its queue (none of the `expect`s / `unreachable!` of the real code is reached on the model) ... *)
+Theorem C11_contract_implies_the_queue_discipline :
+  forall es, contract_prefix (map snd es) = true -> accepts_run ninit es = true.
+Proof. exact contract_implies_accepts. Qed.
+Print Assumptions C11_contract_implies_the_queue_discipline.
+
+(* ... hence LOSSLESS holds for every complete contract-abiding stream, with no further hypothesis *)
+Theorem C11_lossless_on_every_contract_stream :
+  forall es, contract (map snd es) = true -> Permutation (concat (nrun es)) es.
+Proof. exact contract_lossless. Qed.
+Print Assumptions C11_lossless_on_every_contract_stream.
+
+(* assume/guarantee closed across the models: whatever the scheduler model (C03) emits in a complete run — any
+   input, schedule, concurrency, retries, fail-fast — goes through Normalize without loss *)
+Theorem C11_runner_stream_is_normalized_losslessly :
+  forall cf ls s tr (es : list mev),
+    Sched.exec cf ls = Some (s, tr) -> NoDup (SchedP7.feature_ids ls) -> NoDup (SchedP4.inserted_ids ls) ->
+    Sched.pc s = Sched.Done -> map snd es = tr -> Permutation (concat (nrun es)) es.
+Proof. exact Compose.runner_stream_is_normalized_losslessly. Qed.
+Print Assumptions C11_runner_stream_is_normalized_losslessly.
